@@ -268,22 +268,31 @@ def gen_fn(fn, g, probe_labels, unit_name):
         # original body text after literal rewrites, before ghost inserts)
         if fn.loops:
             offs = rustlex.loop_body_offsets(b)
-            pieces = []
-            last = 0
             for k in sorted(fn.loops):
                 if k > len(offs):
                     # the loop structure of the function changed: the contracts of the missing
                     # loops are dropped (recorded); the verifier decides on what is left
                     g.shape_changed.setdefault(fn.key, []).append(
                         "loop #%d has a contract but the function has %d loops" % (k, len(offs)))
+            # structural inserts (body start / end) first, from the last loop to the first so offsets stay valid
+            btoks = rustlex.lex(b)
+            bpairs = rustlex.match_brackets(btoks)
+            close_of = {}
+            for o, c in bpairs.items():
+                close_of[btoks[o].start] = btoks[c].start
+            edits = []
             for idx, (kw, kwpos, bpos) in enumerate(offs, start=1):
                 if idx in fn.loops:
-                    pieces.append(b[last:bpos])
-                    marker = "\n/*@@LOOP %d@@*/\n" % idx
-                    pieces.append(marker)
-                    last = bpos
-            pieces.append(b[last:])
-            b = "".join(pieces)
+                    lp = fn.loops[idx]
+                    edits.append((bpos, "\n/*@@LOOP %d@@*/\n" % idx, "before"))
+                    if lp.body_start:
+                        edits.append((bpos + 1, "\n" + lp.body_start + "\n", "before"))
+                        g.rewrites.append({"item": where, "rule": "R12", "loop": idx, "where": "body start", "inserted": lp.body_start, "why": "ghost/proof text"})
+                    if lp.body_end:
+                        edits.append((close_of[bpos], "\n" + lp.body_end + "\n", "before"))
+                        g.rewrites.append({"item": where, "rule": "R12", "loop": idx, "where": "body end", "inserted": lp.body_end, "why": "ghost/proof text"})
+            for pos, text, _ in sorted(edits, key=lambda e: -e[0]):
+                b = b[:pos] + text + b[pos:]
         b = apply_inserts(b, fn.inserts, g.rewrites, where, probe_labels)
         for l in b.split("\n"):
             m = re.match(r"/\*@@LOOP (\d+)@@\*/", l.strip())
